@@ -1,7 +1,9 @@
 package rules
 
 import (
+	"encoding/hex"
 	"fmt"
+	"go/ast"
 	"go/token"
 	"go/types"
 	"os"
@@ -1736,6 +1738,8 @@ func ruleBase85DecoderInverts(c *eng.Ctx) {
 		plains = append(plains, next...)
 		level = next
 	}
+	// byte strings whose spelling holds the digits that are markers elsewhere: '>' (five of them), '<', '~' without '>'
+	plains = append(plains, []byte{0x5b, 0x4e, 0x05, 0x19}, []byte{0x5b, 0x4e, 0x05, 0x19, 0x41, 0x42}, []byte{0x3b, 0x1e, 0xc5, 0x3e}, []byte{0xee, 0xf5, 0x1a, 0x20, 0x01})
 	n, bad := 0, ""
 	check := func(in string, want []byte, wantErr bool) bool {
 		out, failed, skipped := decodeCase(fn, []byte(in))
@@ -1871,6 +1875,12 @@ func ruleSniffersAgree(c *eng.Ctx) {
 			cases = append(cases, tc{lead + open, html})
 		}
 	}
+	// openings that need more than the first few dozen bytes: an XML declaration and a long doctype before <html>, and
+	// a document behind sixty bytes of blank lines (the sniffer looks at the first 512 bytes, <html within 500 of <?xml)
+	cases = append(cases,
+		tc{"<?xml version=\"1.0\" encoding=\"UTF-8\"?>\n<!DOCTYPE html PUBLIC \"-//W3C//DTD XHTML 1.0 Strict//EN\" \"http://www.w3.org/TR/xhtml1/DTD/xhtml1-strict.dtd\">\n<html xmlns=\"http://www.w3.org/1999/xhtml\"><head><title>t</title></head><body><p>x</p></body></html>", html},
+		tc{strings.Repeat("\n", 60) + "<!DOCTYPE html>\n<html><body><p>x</p></body></html>", html},
+		tc{strings.Repeat(" \r\n", 40) + "<html><body>x</body></html>", html})
 	cases = append(cases, tc{"%PDF-1.4\n%\xe2\xe3\xcf\xd3\n", pdf}, tc{"%PDF-2.0", pdf}, tc{"plain text, nothing else", unknown}, tc{"<?xml version=\"1.0\"?><svg></svg>", unknown}, tc{"{\"a\":1}", unknown}, tc{"    ", unknown}, tc{"<p>", unknown}, tc{"", unknown}, tc{"%PD", unknown})
 	n, bad, skipped := 0, "", ""
 	for _, t := range cases {
@@ -2971,11 +2981,11 @@ func objectCases() []objectCase {
 		{"2147483647", int64(2147483647), false}, {"-2147483648", int64(-2147483648), false}, {"007", int64(7), false},
 		{"3.14", 3.14, false}, {"-.002", -0.002, false}, {"+.5", 0.5, false}, {".5", 0.5, false}, {"5.", 5.0, false}, {"0.0", 0.0, false}, {"-2.5", -2.5, false}, {"123456789.125", 123456789.125, false},
 		{"(abc)", "abc", false}, {"()", "", false}, {"(a(b)c)", "a(b)c", false}, {"(a\\(b\\)c)", "a(b)c", false}, {"(\\n\\r\\t\\b\\f\\\\)", "\n\r\t\b\f\\", false},
-		{"(\\101\\7\\0053)", "A\a\x053", false}, {"(line\\\nbreak)", "linebreak", false}, {"(line\\\r\nbreak)", "linebreak", false}, {"(\xe9\xff\x80)", "\xe9\xff\x80", false}, {"(a b  c)", "a b  c", false}, {"(% not a comment)", "% not a comment", false}, {"(\\q)", "q", false},
+		{"(\\101\\7\\0053)", "A\a\x053", false}, {"(line\\\nbreak)", "linebreak", false}, {"(abc\\\n\ndef)", "abc\ndef", false}, {"(line\\\r\nbreak)", "linebreak", false}, {"(\xe9\xff\x80)", "\xe9\xff\x80", false}, {"(a b  c)", "a b  c", false}, {"(% not a comment)", "% not a comment", false}, {"(\\q)", "q", false},
 		{"<48656C6C6F>", "Hello", false}, {"<48 65 6c\n6C 6F>", "Hello", false}, {"<4>", "@", false}, {"<>", "", false}, {"<E9FF>", "\xe9\xff", false},
 		{"/Name", pdfName("Name"), false}, {"/A#20B", pdfName("A B"), false}, {"/#2F", pdfName("/"), false}, {"/a.b-c_d", pdfName("a.b-c_d"), false}, {"/#E9t#C3#A9", pdfName("\xe9t\xc3\xa9"), false},
 		{"[1 2 3]", []any{int64(1), int64(2), int64(3)}, false}, {"[]", []any{}, false}, {"[1[2]3]", []any{int64(1), []any{int64(2)}, int64(3)}, false},
-		{"[/A/B]", []any{pdfName("A"), pdfName("B")}, false}, {"[(a)(b)]", []any{"a", "b"}, false}, {"[<41><42>]", []any{"A", "B"}, false}, {"[true false null]", []any{true, false, nil}, false},
+		{"[/A/B]", []any{pdfName("A"), pdfName("B")}, false}, {"[(a)(b)]", []any{"a", "b"}, false}, {"[<41><42>]", []any{"A", "B"}, false}, {"[true false null]", []any{true, false, nil}, false}, {"[true]", []any{true}, false}, {"[null/N false]", []any{nil, pdfName("N"), false}, false}, {"<</K true>>", map[string]any{"K": true}, false}, {"<</K null/L false>>", map[string]any{"K": nil, "L": false}, false}, {"[true(s)false<41>null]", []any{true, "s", false, "A", nil}, false},
 		{"[ 1 (a) /N [ 2 ] ]", []any{int64(1), "a", pdfName("N"), []any{int64(2)}}, false}, {"[1.5/N(s)<41>]", []any{1.5, pdfName("N"), "s", "A"}, false},
 		{"<</A 1/B(x)>>", map[string]any{"A": int64(1), "B": "x"}, false}, {"<< /K [1 2] /D << /E /F >> >>", map[string]any{"K": []any{int64(1), int64(2)}, "D": map[string]any{"E": pdfName("F")}}, false}, {"<<>>", map[string]any{}, false},
 		{"<</S<41>/T<</U(v)>>>>", map[string]any{"S": "A", "T": map[string]any{"U": "v"}}, false},
@@ -3754,10 +3764,12 @@ func ruleExtractorTextKeepsCharactersEvaluated(c *eng.Ctx) {
 		names = append(names, n)
 	}
 	sort.Strings(names)
+	baseNames := append([]string(nil), names...)
 	for _, fn := range []*ssa.Function{get, frs} {
 		if fn == nil {
 			continue
 		}
+		names = append([]string(nil), baseNames...)
 		skipped := ""
 		results := map[string]string{}
 		for _, sn := range names {
@@ -3821,6 +3833,56 @@ func ruleExtractorTextKeepsCharactersEvaluated(c *eng.Ctx) {
 					}
 				}
 				results[sn] = fmt.Sprintf("%d non-white-space characters come out, the distinct fragments hold %d%s", len([]rune(nonSpace(out))), len([]rune(nonSpace(want))), what)
+			}
+		}
+		// the same extractor used for a second content stream with as many fragments: what comes out is the second
+		// stream's text (Extract resets the fragment list and nothing else may remember the first)
+		if skipped == "" {
+			mk := func(words []string) *eng.ESlice {
+				var els []any
+				for i, w := range words {
+					v := eng.ZeroOf(fragT).(*eng.EStruct)
+					eng.SetField(v, fragT, "Text", w)
+					eng.SetField(v, fragT, "X", 72+float64(i)*60)
+					eng.SetField(v, fragT, "Y", 700.0)
+					eng.SetField(v, fragT, "Width", float64(len(w))*5)
+					eng.SetField(v, fragT, "Height", 10.0)
+					eng.SetField(v, fragT, "FontSize", 10.0)
+					eng.SetField(v, fragT, "FontName", "F1")
+					eng.SetField(v, fragT, "Direction", ltr)
+					els = append(els, v)
+				}
+				return eng.SliceOf(els...)
+			}
+			ext := eng.ZeroOf(extT).(*eng.EStruct)
+			eng.SetField(ext, extT, "fragments", mk([]string{"first", "stream", "text"}))
+			loc := &eng.ELoc{V: ext}
+			recv := &eng.EPtr{Get: func() any { return loc.V }, Set: func(v any) { loc.V = v }, Loc: loc}
+			ev := eng.NewEvaluator()
+			ev.Steps = 2000000
+			if _, err := ev.Call(fn, []any{recv}, 0); err == nil {
+				eng.SetField(loc.V.(*eng.EStruct), extT, "fragments", mk([]string{"second", "content", "here"}))
+				got, err := ev.Call(fn, []any{recv}, 0)
+				if err == nil {
+					out := ""
+					switch v := got.(type) {
+					case string:
+						out = v
+					case *eng.ESlice:
+						for _, l := range v.L {
+							if st, ok := l.V.(*eng.EStruct); ok && len(st.F) > 0 {
+								t, _ := st.F[0].(string)
+								out += t
+							}
+						}
+					}
+					msg := ""
+					if sortedNonSpace(out) != sortedNonSpace("secondcontenthere") {
+						msg = fmt.Sprintf("after the fragment list was replaced by one of the same length the answer is still %q", out)
+					}
+					results["the same extractor used again"] = msg
+					names = append(names, "the same extractor used again")
+				}
 			}
 		}
 		name := eng.FuncName(fn)
@@ -4006,4 +4068,249 @@ func ruleClassicXRefSpellingsEvaluated(c *eng.Ctx) {
 		}
 		c.Check(msg == "", R, name+"#"+v.name, parse.Pos(), "the section is read as written", "a classic cross-reference section in a legal spelling ("+v.name+") is not read as written: "+msg)
 	}
+}
+
+// ---------------------------------------------------------------------------------------------------------------
+// RX.LC a field assigned on the copy a range loop makes is lost.
+
+func lostLoopCopyWriteRule(id string, pkgs ...string) func(*eng.Ctx) {
+	return func(c *eng.Ctx) {
+		R := id + "-WRITE-TO-LOOP-COPY-LOST"
+		c.Rule(R, "inside `for _, v := range xs` over a slice or array of struct values, a field of v is not assigned unless v is used afterwards in that iteration (read, handed on, its address taken) or written back: v is a copy of the element, so the assignment changes nothing in xs - a stamp such as h.PageIndex = pageNum on the copy leaves every element at its zero value", 0, 1)
+		inPkgs := map[string]bool{}
+		for _, p := range pkgs {
+			inPkgs[p] = true
+		}
+		n := 0
+		for _, pk := range c.P.Pkgs {
+			sp := eng.ShortPath(pk.PkgPath)
+			if !inPkgs[sp] && !strings.Contains(sp, eng.PositivePkg) {
+				continue
+			}
+			info := pk.TypesInfo
+			for _, file := range pk.Syntax {
+				if strings.HasSuffix(c.P.Fset.Position(file.Pos()).Filename, "_test.go") {
+					continue
+				}
+				ast.Inspect(file, func(nd ast.Node) bool {
+					rs, ok := nd.(*ast.RangeStmt)
+					if !ok || rs.Value == nil || rs.Tok != token.DEFINE {
+						return true
+					}
+					vid, ok := rs.Value.(*ast.Ident)
+					if !ok || vid.Name == "_" {
+						return true
+					}
+					vobj := info.Defs[vid]
+					if vobj == nil {
+						return true
+					}
+					if _, isStruct := vobj.Type().Underlying().(*types.Struct); !isStruct {
+						return true
+					}
+					switch info.TypeOf(rs.X).Underlying().(type) {
+					case *types.Slice, *types.Array:
+					default:
+						return true
+					}
+					// assignments v.f = ... and every other use of v in the body
+					var assigns []*ast.AssignStmt
+					otherUse := false
+					lhsIdents := map[*ast.Ident]bool{}
+					ast.Inspect(rs.Body, func(m ast.Node) bool {
+						as, ok := m.(*ast.AssignStmt)
+						if !ok {
+							return true
+						}
+						for _, l := range as.Lhs {
+							root := l
+							depth := 0
+							for {
+								if se, ok := root.(*ast.SelectorExpr); ok {
+									root = se.X
+									depth++
+									continue
+								}
+								break
+							}
+							if id, ok := root.(*ast.Ident); ok && depth > 0 && info.Uses[id] == vobj {
+								assigns = append(assigns, as)
+								lhsIdents[id] = true
+							}
+						}
+						return true
+					})
+					if len(assigns) == 0 {
+						return true
+					}
+					ast.Inspect(rs.Body, func(m ast.Node) bool {
+						if id, ok := m.(*ast.Ident); ok && info.Uses[id] == vobj && !lhsIdents[id] {
+							otherUse = true
+						}
+						return true
+					})
+					n++
+					pos := assigns[0].Pos()
+					key := fmt.Sprintf("%s#range@%s", sp, c.P.Pos(rs.Pos()))
+					c.Check(otherUse, R, key, pos, "the copy is used after it was assigned to", fmt.Sprintf("a field of the range variable %s is assigned and %s is never used again in the iteration: the assignment is made on a copy of the element and is lost (every element keeps its old value, e.g. PageIndex 0 for every heading)", vid.Name, vid.Name))
+					return true
+				})
+			}
+		}
+		c.Ok(R, "module#scanned", token.NoPos, fmt.Sprintf("%d range loops that assign to a field of their value variable", n))
+	}
+}
+
+// ---------------------------------------------------------------------------------------------------------------
+// R14.17 an export is handed out as the encoder wrote it.
+
+// R14.17 [C14]
+func ruleExportNotTrimmed(c *eng.Ctx) {
+	const R = "R14.17-EXPORT-NOT-TRIMMED"
+	c.Rule(R, "no exported function of package rag that returns an export as a string passes the encoder's output through strings.TrimSpace / Trim / TrimRight / TrimSuffix (or the bytes equivalents): in tab-separated output the trailing tabs of a last row with empty cells are white space, so trimming removes fields and the file no longer parses with one record per chunk; JSON Lines batches lose their record terminator", 1, 0)
+	n := 0
+	for _, fn := range c.P.ModuleFuncs() {
+		if fn.Blocks == nil || fn.Pkg == nil || fn.Parent() != nil || eng.ShortPath(fn.Pkg.Pkg.Path()) != "rag" {
+			continue
+		}
+		if !strings.Contains(fn.Name(), "Export") && !strings.HasPrefix(fn.Name(), "To") {
+			continue
+		}
+		res := fn.Signature.Results()
+		if res.Len() == 0 {
+			continue
+		}
+		if bt, ok := res.At(0).Type().Underlying().(*types.Basic); !ok || bt.Info()&types.IsString == 0 {
+			continue
+		}
+		usesExporter := false
+		for _, h := range eng.Cluster(fn, 1) {
+			if strings.Contains(eng.FuncName(h), "Exporter).Export") || strings.Contains(eng.FuncName(h), "ExportToString") {
+				usesExporter = true
+			}
+		}
+		if !usesExporter && !strings.Contains(fn.Name(), "ExportToString") {
+			continue
+		}
+		n++
+		bad := ""
+		for _, r := range eng.Returns(fn) {
+			vals := eng.ReturnValues(r)
+			if len(vals) == 0 {
+				continue
+			}
+			for w := range eng.Slice(vals[0], func(*ssa.Call) bool { return true }) {
+				if call, ok := w.(*ssa.Call); ok {
+					switch eng.CalleeName(call) {
+					case "strings.TrimSpace", "strings.Trim", "strings.TrimRight", "strings.TrimSuffix", "strings.TrimLeft", "bytes.TrimSpace", "bytes.Trim", "bytes.TrimRight", "bytes.TrimSuffix":
+						bad = c.P.Pos(call.Pos())
+					}
+				}
+			}
+		}
+		c.Check(bad == "", R, eng.FuncName(fn)+"#untrimmed", fn.Pos(), "the encoder's output is returned as written", "the exported text is trimmed at "+bad+" before it is returned: trailing empty fields of the last TSV row and the newline that ends the last JSON Lines record are white space, so the export no longer parses back to one record per chunk with every field")
+	}
+	if n == 0 {
+		c.Ok(R, "rag#exports", token.NoPos, "no string-returning export function found: not evaluated")
+	}
+}
+
+// ---------------------------------------------------------------------------------------------------------------
+// R5.22 filter chains of the two ASCII filters, read through Stream.Decode.
+
+// R5.22 [C05]
+func ruleASCIIChainsEvaluated(c *eng.Ctx) {
+	const R = "R5.22-ASCII-CHAINS-EVALUATED"
+	c.Rule(R, "core.(*Stream).Decode, evaluated on streams whose /Filter is a name, a one-element array or a chain of two or three of ASCIIHexDecode and ASCII85Decode (full names and the abbreviations AHx and A85, with and without a /DecodeParms array of nulls), the data encoded by reference encoders in the order the chain undoes it: the answer is the original bytes - the stages run in array order, each on the output of the one before", 1, 0)
+	dec := c.P.FuncExact("core.(*Stream).Decode")
+	streamT, dictT, arrT, nameT := c.P.NamedType("core", "Stream"), c.P.NamedType("core", "Dict"), c.P.NamedType("core", "Array"), c.P.NamedType("core", "Name")
+	nullT := c.P.NamedType("core", "Null")
+	if dec == nil || streamT == nil || dictT == nil || arrT == nil || nameT == nil || len(dec.Params) != 1 {
+		c.Ok(R, "core.(*Stream).Decode", token.NoPos, "stream types not found: not evaluated")
+		return
+	}
+	hexEnc := func(b []byte) []byte {
+		return []byte(strings.ToUpper(hex.EncodeToString(b)) + ">")
+	}
+	a85Enc := func(b []byte) []byte { return []byte(a85Encode(b, true) + "~>") }
+	enc := map[string]func([]byte) []byte{"ASCIIHexDecode": hexEnc, "AHx": hexEnc, "ASCII85Decode": a85Enc, "A85": a85Enc}
+	raw := []byte("Hello, \x00\x01\xfe\xff stream <<>> ~> end")
+	type variant struct {
+		chain  []string
+		asName bool
+		parms  bool
+	}
+	variants := []variant{
+		{[]string{"ASCIIHexDecode"}, true, false}, {[]string{"ASCII85Decode"}, true, false}, {[]string{"AHx"}, true, false}, {[]string{"A85"}, true, false},
+		{[]string{"ASCIIHexDecode"}, false, false}, {[]string{"A85"}, false, true},
+		{[]string{"ASCIIHexDecode", "ASCII85Decode"}, false, false}, {[]string{"ASCII85Decode", "ASCIIHexDecode"}, false, false},
+		{[]string{"AHx", "A85"}, false, true}, {[]string{"A85", "AHx", "A85"}, false, false}, {[]string{"AHx", "AHx"}, false, true},
+	}
+	n, bad, skipped := 0, "", ""
+	for _, v := range variants {
+		// the encoder applies the last stage's encoding first: decoding runs the array front to back
+		data := raw
+		for i := len(v.chain) - 1; i >= 0; i-- {
+			data = enc[v.chain[i]](data)
+		}
+		d := &eng.EMap{M: map[any]any{}}
+		put := func(k string, val any) {
+			d.M[k] = val
+			d.Keys = append(d.Keys, k)
+		}
+		mkName := func(s string) any { return &eng.EIface{T: nameT, V: s} }
+		if v.asName {
+			put("Filter", mkName(v.chain[0]))
+		} else {
+			var els []any
+			for _, f := range v.chain {
+				els = append(els, mkName(f))
+			}
+			put("Filter", &eng.EIface{T: arrT, V: eng.SliceOf(els...)})
+			if v.parms && nullT != nil {
+				var ps []any
+				for range v.chain {
+					ps = append(ps, &eng.EIface{T: nullT, V: eng.ZeroOf(nullT)})
+				}
+				put("DecodeParms", &eng.EIface{T: arrT, V: eng.SliceOf(ps...)})
+			}
+		}
+		st := eng.ZeroOf(streamT).(*eng.EStruct)
+		eng.SetField(st, streamT, "Dict", d)
+		eng.SetField(st, streamT, "Data", eng.BytesOf(data))
+		loc := &eng.ELoc{V: st}
+		recv := &eng.EPtr{Get: func() any { return loc.V }, Set: func(x any) { loc.V = x }, Loc: loc}
+		ev := eng.NewEvaluator()
+		ev.Steps = 3000000
+		got, err := ev.Call(dec, []any{recv}, 0)
+		what := fmt.Sprintf("/Filter %v", v.chain)
+		if err != nil && !err.Panic {
+			skipped = what + ": " + err.Msg
+			break
+		}
+		n++
+		if err != nil {
+			bad = what + ": " + err.Msg
+			break
+		}
+		t, ok := got.(eng.ETuple)
+		if !ok || len(t) != 2 {
+			skipped = "Decode does not return (bytes, error)"
+			break
+		}
+		if t[1] != nil {
+			bad = what + ": the stream is refused with an error"
+			break
+		}
+		out, ok := evalBytes(t[0])
+		if !ok || string(out) != string(raw) {
+			bad = fmt.Sprintf("%s: decodes to %q, the stream holds %q", what, out, raw)
+			break
+		}
+	}
+	if skipped != "" {
+		c.Ok(R, "core.(*Stream).Decode", dec.Pos(), "not evaluated: "+skipped)
+		return
+	}
+	c.Check(bad == "", R, "core.(*Stream).Decode#chains", dec.Pos(), fmt.Sprintf("%d filter specifications evaluated", n), "a filter chain is not undone stage by stage in array order: "+bad)
 }
